@@ -72,7 +72,10 @@ def main():
             out[mid] = {'property': prop, 'file': f, 'tests': tests, 'check_exit': rc, 'codes': codes}
         finally:
             sh('git -C /repo worktree remove --force %s' % wt); shutil.rmtree(wt, ignore_errors=True)
-    json.dump(out, open(os.path.join(ROOT, 'selftest', 'hand_mutants_result.json'), 'w'), indent=1)
+    path = os.path.join(ROOT, 'selftest', 'hand_mutants_result.json')
+    old = json.load(open(path)) if os.path.exists(path) else {}
+    old.update(out)
+    json.dump(old, open(path, 'w'), indent=1)
 
 
 if __name__ == '__main__':
